@@ -15,7 +15,7 @@
 #define VS_MAXT      40
 
 /* kinds of choice point */
-enum { CP_SCHED = 0, CP_RENV = 1, CP_WENV = 2, CP_SIGPICK = 3, CP_SIGORDER = 4, CP_FENV = 5 };
+enum { CP_SCHED = 0, CP_RENV = 1, CP_WENV = 2, CP_SIGPICK = 3, CP_SIGORDER = 4, CP_FENV = 5, CP_SENV = 6 };
 
 /* outcome kinds */
 enum {
@@ -43,7 +43,8 @@ struct vs_dev { uint32_t idx; uint32_t alt; };
 
 /* configuration of one execution, installed before lbzip2_main() runs */
 struct vs_config {
-  int policy;                    /* 0 P0, 1 P1, 2 P2 */
+  int policy;                    /* 0 P0, 1 P1, 2 P2; 3+r: strict priorities, r-th permutation of the first nprio threads */
+  int nprio;
   int ndev;
   struct vs_dev dev[VS_MAXDEV];
   uint32_t horizon;
@@ -52,6 +53,8 @@ struct vs_config {
   unsigned sigs;                 /* external signals offered: bit0 SIGINT bit1 SIGTERM */
   unsigned fenv;                 /* file operations: bit0 offer errno failures, bit1 offer SIGKILL before/after */
   unsigned spurious;             /* offer spurious cond wake-ups (count) */
+  unsigned senv;                 /* stderr: bit0 offer EPIPE (+SIGPIPE), bit1 offer EIO at every fflush(stderr) */
+  uint64_t inherit_mask;         /* signals blocked in the mask inherited through exec() */
   size_t rfrag;                  /* >0: every read returns at most rfrag bytes */
   size_t wfrag;                  /* >0: every write takes at most wfrag bytes */
   int ign_sigpipe;               /* SIGPIPE/SIGXFSZ inherited as SIG_IGN */
